@@ -8,6 +8,7 @@
 #include <unistd.h>
 #include <string>
 #include <map>
+#include <vector>
 
 #include "nv_api.h"
 #include "fileio/file.h"
@@ -238,6 +239,7 @@ static void c08scan_child(const NvCpu *cpu, int lo, int hi, int step, int lmax, 
   long evals = 0, unknown = 0, multi = 0;
   std::map<int, long> lens;
   char d[400];
+  std::vector<std::pair<int, std::string> > first(65536, std::make_pair(-9999, std::string()));
   for (int p = lo; p <= hi; p += step)
   {
     snprintf(d, sizeof(d), "@%d\n", p);
@@ -280,6 +282,7 @@ static void c08scan_child(const NvCpu *cpu, int lo, int hi, int step, int lmax, 
         out += d;
       }
       if (n1 > cpu->unit) { multi++; }
+      if (tail == 2 && p >= 0 && p < 65536) { first[p] = std::make_pair(n1, t1); }
       int n2 = nv_disasm(cpu, &mem, addr, t2);
       if (n2 != n1 || t2 != t1)
       {
@@ -306,6 +309,24 @@ static void c08scan_child(const NvCpu *cpu, int lo, int hi, int step, int lmax, 
         snprintf(d, sizeof(d), "nonlocal_before\t%d\t%d\tlen=%d '%.50s' vs len=%d '%.50s'\n", p, tail, n1, t1.c_str(), n4, t4.c_str());
         out += d;
       }
+    }
+  }
+  // second pass in the opposite order: a decoder that keeps state between calls (a static "mode" variable)
+  // renders a pattern differently depending on what was decoded before it
+  alarm(120);
+  for (int k = -4; k < 0; k++) { mem.write8(addr + k, 0x11 * 3); }      // as in the first pass for tail 2
+  for (int p = hi - ((hi - lo) % step); p >= lo; p -= step)
+  {
+    if (p < 0 || p >= 65536 || first[p].first == -9999) { continue; }
+    fill(mem, addr, p, 2, false, 0);
+    std::string t5;
+    int n5 = nv_disasm(cpu, &mem, addr, t5);
+    evals++;
+    if (n5 != first[p].first || t5 != first[p].second)
+    {
+      snprintf(d, sizeof(d), "order_dependent\t%d\t2\tlen=%d '%.50s' vs len=%d '%.50s'\n", p, first[p].first,
+               first[p].second.c_str(), n5, t5.c_str());
+      out += d;
     }
   }
   snprintf(d, sizeof(d), "#stats\t%ld\t%ld\t%ld\n", evals, unknown, multi);
